@@ -169,17 +169,17 @@ Qed.
 
 (* the model's operations change my_intfs exactly as add_tbl / del_tbl, and leave selections and
    the OS table alone *)
-Lemma add_interface_intfs d i :
-  d_intfs (fst (add_interface d i)) = add_tbl (d_intfs d) i /\
-  d_sels (fst (add_interface d i)) = d_sels d /\ d_os (fst (add_interface d i)) = d_os d.
+Lemma add_interface_intfs now d i :
+  d_intfs (fst (add_interface now d i)) = add_tbl (d_intfs d) i /\
+  d_sels (fst (add_interface now d i)) = d_sels d /\ d_os (fst (add_interface now d i)) = d_os d.
 Proof.
   unfold add_interface, add_tbl.
   destruct (intf_get (i_index i) (d_intfs d)) as [m|] eqn:Eg.
   - destruct (has_ifaddr (i_addr i) (mi_addrs m)) eqn:Eh; simpl; [auto|].
     rewrite intf_get_put. simpl. rewrite N.eqb_refl.
-    destruct (fold_left _ (d_svcs _) ([], [])) as [svcs' sent]. simpl. auto.
+    destruct (fold_left _ (d_svcs _) ([], [], [])) as [[svcs' sent] resend]. simpl. auto.
   - simpl. rewrite intf_get_app_new by exact Eg. simpl. rewrite N.eqb_refl.
-    destruct (fold_left _ (d_svcs _) ([], [])) as [svcs' sent]. simpl. auto.
+    destruct (fold_left _ (d_svcs _) ([], [], [])) as [[svcs' sent] resend]. simpl. auto.
 Qed.
 
 Lemma del_interface_addr_intfs d i :
@@ -213,10 +213,10 @@ Proof.
   - rewrite held_del_tbl. destruct (key_is e idx a); simpl; [rewrite andb_false_r, Ef; reflexivity|apply andb_true_r].
 Qed.
 
-Lemma apply_fold_intfs (f : iface -> bool) tbl : forall d,
+Lemma apply_fold_intfs now (f : iface -> bool) tbl : forall d,
   let r := fold_left (fun (acc : dstate * list obs) (im : iface * bool) =>
                         let '(st, out) := acc in
-                        let '(st', o) := if snd im then add_interface st (fst im) else del_interface_addr st (fst im) in
+                        let '(st', o) := if snd im then add_interface now st (fst im) else del_interface_addr st (fst im) in
                         (st', out ++ o)) (combine tbl (map f tbl)) d in
   d_intfs (fst r) = apply_tbl f (d_intfs (fst d)) tbl /\ d_sels (fst r) = d_sels (fst d) /\ d_os (fst r) = d_os (fst d).
 Proof.
@@ -224,8 +224,8 @@ Proof.
   change (apply_tbl f (d_intfs st) (e :: tbl))
     with (apply_tbl f (if f e then add_tbl (d_intfs st) e else del_tbl (d_intfs st) e) tbl).
   destruct (f e) eqn:Ef.
-  - destruct (add_interface st e) as [st' o] eqn:Ea.
-    pose proof (add_interface_intfs st e) as (H1 & H2 & H3). rewrite Ea in H1, H2, H3. simpl in H1, H2, H3.
+  - destruct (add_interface now st e) as [st' o] eqn:Ea.
+    pose proof (add_interface_intfs now st e) as (H1 & H2 & H3). rewrite Ea in H1, H2, H3. simpl in H1, H2, H3.
     specialize (IH (st', out ++ o)). simpl in IH. destruct IH as (I1 & I2 & I3).
     rewrite I1, I2, I3, H1, H2, H3. auto.
   - destruct (del_interface_addr st e) as [st' o] eqn:Ea.
@@ -236,8 +236,8 @@ Qed.
 
 (* interface_table_after_apply: an (interface, address) pair the table names is held afterwards
    iff the last matching selection enables its entry; pairs the table does not name are untouched *)
-Theorem interface_table_after_apply d tbl idx a :
-  let d' := fst (apply_intf_selections d tbl) in
+Theorem interface_table_after_apply now d tbl idx a :
+  let d' := fst (apply_intf_selections now d tbl) in
   held (d_intfs d') idx a =
   match find (fun e => key_is e idx a) (rev tbl) with
   | Some e => last_match (d_sels d) e
@@ -246,7 +246,7 @@ Theorem interface_table_after_apply d tbl idx a :
   /\ d_sels d' = d_sels d.
 Proof.
   cbv zeta. unfold apply_intf_selections. rewrite apply_marks_last_match.
-  pose proof (apply_fold_intfs (last_match (d_sels d)) tbl (d, [])) as H. cbv zeta in H. simpl in H.
+  pose proof (apply_fold_intfs now (last_match (d_sels d)) tbl (d, [])) as H. cbv zeta in H. simpl in H.
   destruct H as (H1 & H2 & _). rewrite H1, H2. split; [apply held_apply_tbl|reflexivity].
 Qed.
 
@@ -279,24 +279,7 @@ Proof. unfold frame. intros (A1 & A2 & A3) (B1 & B2 & B3). rewrite B1, B2, B3. a
 Lemma resolve_updated_frame d updated : frame d (fst (resolve_updated d updated)).
 Proof.
   unfold resolve_updated.
-  set (cands := flat_map _ (c_ptr (d_cache d))).
-  assert (G : forall l acc, frame d (fst acc) ->
-              frame d (fst (fold_left (fun (acc : dstate * list obs) (ti : bytes * bytes) =>
-                              let '(st, out) := acc in
-                              let '(ty, inst) := ti in
-                              match resolve_from_cache (d_cache d) ty inst with
-                              | Some ev => (set_cache (d_cache d) (add_set inst (d_resolved st)) st, out ++ [ev])
-                              | None =>
-                                if mem inst (d_resolved st)
-                                then (set_cache (d_cache d) (filter (fun x => negb (beq x inst)) (d_resolved st)) st,
-                                      out ++ [ORemoved ty inst])
-                                else (st, out)
-                              end) l acc))).
-  { induction l as [|[ty inst] l IH]; intros [st out] Hf; simpl; [exact Hf|].
-    apply IH. destruct (resolve_from_cache (d_cache d) ty inst); simpl.
-    - exact Hf.
-    - destruct (mem inst (d_resolved st)); simpl; exact Hf. }
-  apply G. apply frame_refl.
+  destruct (fold_left _ _ ([], [], [])) as [[nr nl] out]. unfold frame. simpl. auto.
 Qed.
 
 Lemma held_remove l i idx a : held (intf_remove i l) idx a = true -> held l idx a = true.
@@ -321,8 +304,8 @@ Qed.
 (* interface_table_after_check: after an IP check the daemon holds exactly the (interface,
    address) pairs of the OS table whose last matching selection enables them - whatever it held
    before, and whenever the selections were made (also before the interface existed) *)
-Theorem interface_table_after_check d idx a :
-  let d' := fst (check_ip_changes d) in
+Theorem interface_table_after_check now d idx a :
+  let d' := fst (check_ip_changes now d) in
   held (d_intfs d') idx a =
   match find (fun e => key_is e idx a) (rev (d_os d)) with
   | Some e => last_match (d_sels d) e
@@ -361,13 +344,13 @@ Proof.
   specialize (F3 deleted_intfs (d2, [])). unfold P in F3. simpl in F3.
   destruct (fold_left step deleted_intfs (d2, [])) as [d3 ev_cache] eqn:E3. simpl in F3.
   destruct F3 as (S3 & O3 & H3).
-  pose proof (interface_table_after_apply d3 tbl idx a) as Ha. cbv zeta in Ha.
-  destruct (apply_intf_selections d3 tbl) as [d4 ev_apply] eqn:E4. simpl in Ha. simpl.
+  pose proof (interface_table_after_apply now d3 tbl idx a) as Ha. cbv zeta in Ha.
+  destruct (apply_intf_selections now d3 tbl) as [d4 ev_apply] eqn:E4. simpl in Ha. simpl.
   destruct Ha as (Ha & Hs).
   destruct F2 as (F21 & F22 & F23).
   assert (Hsel : d_sels d3 = d_sels d) by (rewrite S3, F22; reflexivity).
   assert (Hos : d_os d3 = d_os d) by (rewrite O3, F23; reflexivity).
-  pose proof (apply_fold_intfs (last_match (d_sels d3)) tbl (d3, [])) as Hf. cbv zeta in Hf. simpl in Hf.
+  pose proof (apply_fold_intfs now (last_match (d_sels d3)) tbl (d3, [])) as Hf. cbv zeta in Hf. simpl in Hf.
   split; [|split].
   - rewrite Ha, Hsel. fold tbl.
     destruct (find (fun e => key_is e idx a) (rev tbl)) eqn:Ef; [reflexivity|].
